@@ -101,7 +101,9 @@ theorem dispatch_quiet (st : Static) (d d' : Defs) (ctx : RCtx) (hl : ctx.last =
       simp only at h
       split at h
       · cases h
-      · simp only [hl, Bool.false_eq_true, if_false] at h
+      · split at h
+        · cases h
+        simp only [hl, Bool.false_eq_true, if_false] at h
         exact ite_ok_rep h rfl rfl
   · unfold resolveAlign at h
     cases hev : resolverEval st d ctx {} _ with
